@@ -105,5 +105,35 @@ pub fn column(depth: usize) -> Value {
             }
         }
     }
+    // long varchar values (a value is never split over blocks: one larger than the target block size, or than 64 KiB, still has
+    // to read back whole); value v >= 1_000_000 stands for 'L' + v - 1_000_000 times 'x'
+    let long_strings: Vec<Vec<Option<i32>>> = vec![
+        vec![Some(5), Some(1_070_000), Some(9), Some(1_066_000), Some(1_000_000)],
+        vec![Some(1_000_300), None, Some(1_065_534), Some(1_065_535), Some(1_065_536), Some(3)],
+        vec![Some(1_020_000), Some(1_020_000), Some(1_030_000), Some(1_030_000), Some(2)],
+    ];
+    for items in &long_strings {
+        let n = items.len();
+        let has_null = items.iter().any(|v| v.is_none());
+        for encode in 0u8..3 {
+            for nullable in [false, true] {
+                if has_null && !nullable { continue; }
+                for block in [4096usize, 16384] {
+                    for start in 0..=n {
+                        for k in [None, Some(2)] {
+                            tried += 1;
+                            let steps: Vec<ColumnRead> = (0..n + 2).map(|_| ColumnRead::Batch(k)).collect();
+                            let input = || json!({"items": format!("{items:?} (v >= 1000000: 'L' + (v - 1000000) x 'x')"), "type": "varchar", "encoding": (["plain", "run-length", "dictionary"][encode as usize]),
+                                "nullable": nullable, "target_block_size": block, "start_row": start, "steps": format!("{:?}", &steps[..2])});
+                            match h::column_read(items, true, encode, nullable, block, start as u32, &steps) {
+                                Ok(out) => if let Err(e) = check(items, start, &steps, &out) { return json!({"found": true, "tried": tried, "input": input(), "observed": format!("{e}; batches returned (row id, values; -1 = damaged string): {out:?}")}); },
+                                Err(e) => return json!({"found": true, "tried": tried, "input": input(), "observed": e}),
+                            }
+                        }
+                    }
+                }
+            }
+        }
+    }
     json!({"found": false, "tried": tried})
 }
